@@ -93,7 +93,9 @@ def staticResetObs (c : LibCfg) (s : Src) : SObs :=
     else if !s.isPtr then { tag := "okvalue" }
     else match staticReset c s with
       | some v => { tag := "ok", v := v }
-      | none => if s.kind == .string then { tag := "okvalue" } else { tag := "panic" }
+      -- a typed-nil pointer: the numeric arms write through it; `*string` never did, and since
+      -- `fix: StaticInspector.Reset …` the `*[]byte` arm tests for nil as well
+      | none => if s.kind == .string || (s.kind == .bytes && !c.staticResetTextLost) then { tag := "okvalue" } else { tag := "panic" }
   if o.tag == "ok" && s.v.isNilPtr then { tag := "okvalue" } else o
 
 def staticResetAccepts (s : Src) (o : SObs) : Bool :=
